@@ -1,19 +1,11 @@
-// GENERATED by gen_os.py — custom POSIX platform for the simulator (DESIGN.md §3.2).
-pub mod posix {
-    #[path = "/repo/iceoryx2-pal/posix/src/linux/constants.rs"]
-    pub mod constants;
-    #[path = "/repo/iceoryx2-pal/posix/src/linux/dirent.rs"]
-    pub mod dirent;
-    #[path = "/repo/iceoryx2-pal/posix/src/linux/errno.rs"]
-    pub mod errno;
-    #[path = "/repo/iceoryx2-pal/posix/src/linux/fcntl.rs"]
-    pub mod fcntl;
-    #[path = "/repo/iceoryx2-pal/posix/src/linux/mman.rs"]
-    pub mod mman;
-    pub mod pthread {
-    #[path = "/repo/iceoryx2-pal/posix/src/linux/pthread.rs"]
-    mod real;
-    pub use real::*;
+#!/usr/bin/env python3
+# Generates os.rs: /repo's linux PAL re-mounted by absolute path, with wrappers (shadowing the glob
+# re-export) for calls that block, read the clock, or change kernel state (DESIGN.md §3.2).
+mods = "constants dirent errno fcntl mman pthread pwd resource sched select semaphore signal socket stat stdio stdlib string support time timer types unistd".split()
+REPO = "/repo/iceoryx2-pal/posix/src/linux"
+wrapped = {}
+
+wrapped["pthread"] = r'''
     use iceoryx2_pal_concurrency_sync::sim;
     use crate::posix::types::*;
     const EBUSY_: int = libc::EBUSY;
@@ -86,29 +78,9 @@ pub mod posix {
         sim::wake(lock as usize, true);
         r
     }
-    }
-    #[path = "/repo/iceoryx2-pal/posix/src/linux/pwd.rs"]
-    pub mod pwd;
-    #[path = "/repo/iceoryx2-pal/posix/src/linux/resource.rs"]
-    pub mod resource;
-    pub mod sched {
-    #[path = "/repo/iceoryx2-pal/posix/src/linux/sched.rs"]
-    mod real;
-    pub use real::*;
-    use iceoryx2_pal_concurrency_sync::sim;
-    use crate::posix::types::*;
-    pub unsafe fn sched_yield() -> int {
-        if !sim::active() { return unsafe { real::sched_yield() }; }
-        sim::spin_hint();
-        0
-    }
-    }
-    #[path = "/repo/iceoryx2-pal/posix/src/linux/select.rs"]
-    pub mod select;
-    pub mod semaphore {
-    #[path = "/repo/iceoryx2-pal/posix/src/linux/semaphore.rs"]
-    mod real;
-    pub use real::*;
+'''
+
+wrapped["semaphore"] = r'''
     use iceoryx2_pal_concurrency_sync::sim;
     use crate::posix::types::*;
 
@@ -152,25 +124,9 @@ pub mod posix {
             }
         }
     }
-    }
-    #[path = "/repo/iceoryx2-pal/posix/src/linux/signal.rs"]
-    pub mod signal;
-    #[path = "/repo/iceoryx2-pal/posix/src/linux/socket.rs"]
-    pub mod socket;
-    #[path = "/repo/iceoryx2-pal/posix/src/linux/stat.rs"]
-    pub mod stat;
-    #[path = "/repo/iceoryx2-pal/posix/src/linux/stdio.rs"]
-    pub mod stdio;
-    #[path = "/repo/iceoryx2-pal/posix/src/linux/stdlib.rs"]
-    pub mod stdlib;
-    #[path = "/repo/iceoryx2-pal/posix/src/linux/string.rs"]
-    pub mod string;
-    #[path = "/repo/iceoryx2-pal/posix/src/linux/support.rs"]
-    pub mod support;
-    pub mod time {
-    #[path = "/repo/iceoryx2-pal/posix/src/linux/time.rs"]
-    mod real;
-    pub use real::*;
+'''
+
+wrapped["time"] = r'''
     use iceoryx2_pal_concurrency_sync::sim;
     use crate::posix::types::*;
     /// CLOCK_REALTIME = virtual monotonic time + this epoch
@@ -199,33 +155,26 @@ pub mod posix {
         if ns > 0 { sim::sleep_ns(ns); }
         0
     }
+'''
+
+wrapped["sched"] = r'''
+    use iceoryx2_pal_concurrency_sync::sim;
+    use crate::posix::types::*;
+    pub unsafe fn sched_yield() -> int {
+        if !sim::active() { return unsafe { real::sched_yield() }; }
+        sim::spin_hint();
+        0
     }
-    #[path = "/repo/iceoryx2-pal/posix/src/linux/timer.rs"]
-    pub mod timer;
-    #[path = "/repo/iceoryx2-pal/posix/src/linux/types.rs"]
-    pub mod types;
-    #[path = "/repo/iceoryx2-pal/posix/src/linux/unistd.rs"]
-    pub mod unistd;
-    pub use crate::os::posix::constants::*;
-    pub use crate::os::posix::dirent::*;
-    pub use crate::os::posix::errno::*;
-    pub use crate::os::posix::fcntl::*;
-    pub use crate::os::posix::mman::*;
-    pub use crate::os::posix::pthread::*;
-    pub use crate::os::posix::pwd::*;
-    pub use crate::os::posix::resource::*;
-    pub use crate::os::posix::sched::*;
-    pub use crate::os::posix::select::*;
-    pub use crate::os::posix::semaphore::*;
-    pub use crate::os::posix::signal::*;
-    pub use crate::os::posix::socket::*;
-    pub use crate::os::posix::stat::*;
-    pub use crate::os::posix::stdio::*;
-    pub use crate::os::posix::stdlib::*;
-    pub use crate::os::posix::string::*;
-    pub use crate::os::posix::support::*;
-    pub use crate::os::posix::time::*;
-    pub use crate::os::posix::timer::*;
-    pub use crate::os::posix::types::*;
-    pub use crate::os::posix::unistd::*;
-}
+'''
+
+out = ["// GENERATED by gen_os.py — custom POSIX platform for the simulator (DESIGN.md §3.2).",
+       "pub mod posix {"]
+for m in mods:
+    if m in wrapped:
+        out.append(f"    pub mod {m} {{\n    #[path = \"{REPO}/{m}.rs\"]\n    mod real;\n    pub use real::*;{wrapped[m]}    }}")
+    else:
+        out.append(f'    #[path = "{REPO}/{m}.rs"]\n    pub mod {m};')
+for m in mods:
+    out.append(f"    pub use crate::os::posix::{m}::*;")
+out.append("}")
+open("/verif/sim/platform/os.rs", "w").write("\n".join(out) + "\n")
